@@ -5,12 +5,16 @@
   references, copy numbers and the header's origin untouched, and the set records written right afterwards are
   those of the state before the call (the set it may have created is empty and empty sets are never written);
   copy numbers of later objects depend on the registered objects only.
-  PARTIAL: (a) the effect of the extra empty set on the *order* of later sets and on origin defaults is covered
-  by the history correspondence/oracle, not by a simulation theorem; (b) the second half of the property (a write
+  `history_without_rejected_calls`: for EVERY history, the objects, header origins and set records are those of the
+  history without its rejected calls, provided no add_origin call is rejected and different logical files name
+  different sets (the two known findings are exactly the cases outside these provisos).
+  PARTIAL: (a) the *order* of the set records may differ (an empty set created by a rejected call keeps its place
+  in the registry): the statement is about membership; (b) the second half of the property (a write
   that raises leaves the specification able to produce the fresh file) is about values derived at write time
   (known finding D6) and is checked by the oracle only.
 -/
 import Dlismodel.Proofs.Api
+import Dlismodel.Proofs.ApiSim
 namespace Dlis.C20
 open Dlis
 
@@ -49,6 +53,42 @@ theorem records_unchanged_origin (w : World) (lf : Nat) (sn : Option PStr) (name
     · cases out <;> simp_all
   simp only [step, this]
   exact setRecords_touch_empty w l lf (0, sn) hlf hlocal
+
+/-- all steps: any number of rejected calls, anywhere in the history, before or after the objects they could have
+disturbed -/
+theorem history_without_rejected_calls (n : Nat) (ops : List Op) (hv : ∀ op ∈ ops, op.lf < n)
+    (hrej : ∀ op ∈ ops, op.rejected = true → op.isOrigin = false)
+    (hdisj : ∀ a ∈ ops, ∀ b ∈ ops, a.key = b.key → a.lf = b.lf) :
+    (run (World.init n) ops).items = (run (World.init n) (ops.filter fun o => !o.rejected)).items ∧
+    (run (World.init n) ops).headerOrigin = (run (World.init n) (ops.filter fun o => !o.rejected)).headerOrigin ∧
+    ∀ lf p, p ∈ setRecords (run (World.init n) ops) lf ↔
+      p ∈ setRecords (run (World.init n) (ops.filter fun o => !o.rejected)) lf :=
+  rejected_calls_invisible n ops hv hrej hdisj
+
+/-- the provisos are met by a non-trivial history (two logical files, rejected calls of both kinds in between) -/
+example :
+    let ops : List Op := [.item 0 3 none [65] none .rejectLate, .origin 0 none [79] none .ok, .item 1 4 (some [83]) [66] none .rejectEarly,
+      .item 0 3 none [65] none .ok, .origin 1 (some [84]) [80] (some 5) .ok, .item 1 4 (some [83]) [66] none .ok]
+    (∀ op ∈ ops, op.lf < 2) ∧ (∀ op ∈ ops, op.rejected = true → op.isOrigin = false) ∧
+      (∀ a ∈ ops, ∀ b ∈ ops, a.key = b.key → a.lf = b.lf) := by decide
+
+/-- the first proviso cannot be dropped (known finding `rejected:trace:rejected-add_origin-created-its-set-first`):
+a rejected `add_origin` that named a new set leaves that set in front of the one holding the intended defining
+origin, so objects added later take another origin reference -/
+theorem rejected_add_origin_is_visible :
+    let ops : List Op := [.origin 0 (some [88]) [82] none .rejectLate, .origin 0 none [79] none .ok,
+      .origin 0 (some [88]) [80] (some 7) .ok, .item 0 3 none [65] none .ok]
+    (run (World.init 1) ops).items ≠ (run (World.init 1) (ops.filter fun o => !o.rejected)).items := by
+  decide +kernel
+
+/-- nor the second (known finding `rejected:changes-writability:set-of-another-logical-file`): a rejected call
+through one logical file that names a set another logical file has objects in makes the write refuse -/
+theorem rejected_call_on_foreign_set_is_visible :
+    let ops : List Op := [.origin 0 none [79] none .ok, .origin 1 (some [84]) [80] none .ok,
+      .item 0 3 none [65] none .ok, .item 1 3 none [66] none .rejectLate]
+    writable (run (World.init 2) ops) = false ∧
+      writable (run (World.init 2) (ops.filter fun o => !o.rejected)) = true := by
+  decide +kernel
 
 example : setRecords (run (World.init 1) [.origin 0 none [79] none .ok, .item 0 5 none [90] none .rejectLate]) 0 =
     setRecords (run (World.init 1) [.origin 0 none [79] none .ok]) 0 := by decide +kernel
